@@ -1,6 +1,7 @@
 //! C10 replayer/recorder: spec-executed recursion/closure-dense programs -> compiler -> minilua with the
 //! activation event log recorded.
 //!   c10 replay <cases.ndjson> <results.ndjson> <events.ndjson>
+//!   c10 run <file.sy> [lua]        compile one source text, run it, print its output (to look at a replay by hand)
 //! results: as c01 (trace comparison with the specification's expected observation);
 //! events: one record per program {i, ev:[{e,a,p,n}]} for Trace_Activation.
 
@@ -24,6 +25,29 @@ fn ev_json(e: &Event) -> Value {
 
 fn main() {
     let args: Vec<String> = std::env::args().collect();
+    // c10 run <file.sy> [lua]: compile one source text and run it (for looking at a replay by hand; nothing is judged)
+    if args.len() >= 3 && args[1] == "run" {
+        let src = std::fs::read_to_string(&args[2]).unwrap_or_else(|e| tool_error(&format!("{}: {}", args[2], e)));
+        match vharness::compile(&Project::single(&src)) {
+            CompileResult::Ok { lua } => {
+                if args.len() > 3 {
+                    println!("{}", vharness::project::body_of(&lua));
+                }
+                let r = luarun::run_with(&lua, &luarun::default_opts());
+                for p in &r.obs.prints {
+                    println!("{}", p);
+                }
+                println!("-- {:?}", r.obs.status);
+            }
+            CompileResult::Err { errors, .. } => {
+                for e in errors {
+                    println!("error {}:{} {}", e.file, e.line, e.message);
+                }
+            }
+            CompileResult::Panic { message, .. } => println!("panic {}", message),
+        }
+        return;
+    }
     if args.len() < 5 || args[1] != "replay" {
         tool_error("usage: c10 replay <cases> <results> <events>");
     }
